@@ -13,9 +13,9 @@ GO = ["c15"]
 PROP = "props/C15.v"
 PROOFS = ["proofs/ChainRef.v", "proofs/ChainTrace.v", "proofs/ChainWriter.v", "proofs/ChainMain.v", "model/Chain.v"]
 
-# the witness of C15_getters_refuted / C15_panic_refuted, replayed on the implementation on every run
+# witness of the defect repaired by /repo commit d237067 (C15_fixed_invalid_status): replayed on every run,
+# it must now be accepted (model = implementation) with the property holding on the implementation
 WITNESS = "m=GET p=/ f=0 c=REC|U:H1000"
-WITNESS_KEY = "invalid-status-latched"
 HOW = "build/bin/c15 -mode corpus -file <file with the PROG line> | build/bin/c15_model"
 
 
@@ -34,10 +34,6 @@ def parse_prog(s):
 
 def body_allowed(code):
     return not (100 <= code <= 199 or code in (204, 304))
-
-
-def invalid_codes(prog):
-    return [int(c) for c in re.findall(r"(?:^|[:,|])H(\d+)", "|".join(prog["hs"])) if not 100 <= int(c) <= 999]
 
 
 def property_failures(prog, o):
@@ -162,10 +158,7 @@ def classify(run, line, only=None):
     payload = {"prog": ps, "impl": impl, "model": model, "differs_in": fields, "how": HOW}
     if fails:
         kinds = sorted(set(k for k, _ in fails))
-        if invalid_codes(prog) and set(kinds) <= {"written", "status", "recovered-500", "size"}:
-            key = WITNESS_KEY
-        else:
-            key = "%s:%s" % ("+".join(kinds), ps)
+        key = "%s:%s" % ("+".join(kinds), ps)
         run.violation(key, dict(payload, property_failures=fails),
                       "%s  [%s]" % ("; ".join(x for _, x in fails[:3]), ps))
     else:
@@ -190,25 +183,23 @@ def run_corpus_lines(lines):
 
 
 def witness_leg(run):
-    """C15_getters_refuted / C15_panic_refuted name a concrete program; replay it on the implementation."""
+    """Replay the witness of the repaired defect: the property must hold on the implementation's observables
+    (a disagreement with the model on it is classified like any other)."""
     out, raw = run_corpus_lines([WITNESS])
     if not raw or "\t" not in raw[0]:
-        run.violation("harness-failed", {"out": out[-1000:]}, "could not replay the refutation witness", True)
+        run.violation("harness-failed", {"out": out[-1000:]}, "could not replay the old witness", True)
         return
     ps, impl = raw[0].split("\t")[:2]
+    mism = [l for l in out.splitlines() if l.startswith("MISMATCH")]
+    for l in mism:
+        classify(run, l)
     fails = property_failures(parse_prog(ps), parse_obs(impl))
-    if fails:
-        run.violation(WITNESS_KEY, {"prog": ps, "impl": impl, "property_failures": fails, "how": HOW,
-                                    "coq_witness": "C15_getters_refuted, C15_panic_refuted (props/C15.v)"},
-                      "WriteHeader(1000) under the recovery middleware: the wrapper latches status/written before "
-                      "net/http panics on the code, so the recovery's 500 is swallowed: %s" % "; ".join(x for _, x in fails))
-    else:
-        run.notes.append("the refutation witness %r no longer fails on the implementation: "
-                         "C15_*_refuted describe code that has changed (stale finding)" % WITNESS)
-    if "MISMATCH" in out:
-        for l in out.splitlines():
-            if l.startswith("MISMATCH"):
-                classify(run, l)
+    if fails and not mism:
+        # model and implementation agree on a run on which the property fails: the theorems are about other code
+        run.violation("%s:%s" % ("+".join(sorted(set(k for k, _ in fails))), ps),
+                      {"prog": ps, "impl": impl, "property_failures": fails, "how": HOW},
+                      "%s  [%s]" % ("; ".join(x for _, x in fails[:3]), ps))
+    run.coverage["fixed_witness"] = {"prog": ps, "impl": impl, "property_holds": not fails, "model_agrees": not mism}
 
 
 def run(run):
@@ -298,9 +289,9 @@ def run(run):
                       "extracted exec and ref disagree although C15_refines is proved: extraction/driver broken", True)
     run.assumptions += [
         "the client is an httptest.ResponseRecorder (what a real net/http server does with 1xx codes is not observed)",
-        "status codes outside 100..999 are excluded from C15_getters / C15_panic_status by hypothesis (chain_valid); "
-        "the excluded shape is the finding '%s'" % WITNESS_KEY,
-        "http.DetectContentType modelled as constant text/plain (only reachable after an invalid status code)",
+        "the ghost call log the getter spec is stated on lists the wrapper calls that returned; a WriteHeader that "
+        "panicked in net/http (code outside 100..999) is not a status that was written",
+        "http.DetectContentType modelled as constant text/plain (unreachable through the wrapper since /repo d237067, kept for faithfulness)",
         "the order/nesting/abort theorems see built-in middlewares only through entry/exit (their Next/Abort calls are "
         "inside the real closures)"]
 
